@@ -1549,6 +1549,12 @@ def m_dict_get(I, st, recv, args, kw, node):
         k = args[0]
         if isinstance(k, VStr) and k.text is not None:
             return d.items.get(k.text, default)
+        if isinstance(k, VStr) and not d.fam and all(isinstance(x, str) for x in d.items):
+            from .values import intern_str
+            out = default
+            for key, val in reversed(list(d.items.items())):
+                out = _ite_val(to_z3(k.sid) == intern_str(key), val, out)
+            return out
     raise Unsupported(".get on " + type(recv).__name__)
 
 
